@@ -53,7 +53,28 @@ def run_lines(spec, tier, seed):
             for f in fo.fields():
                 todo.append((cls.form_name, fo.name(), f.name()))
     todo = [t for n, t in enumerate(todo) if n % spec['of'] == spec['slice']]
+    # worksheets that branch on several yes/no answers: every combination of those answers (2021 recovery rebate credit)
+    combos = {}
+    if year == 2021:
+        W_ = '1040_recovery_rebate_credit_wkst'
+        import itertools
+        combos[W_] = [{f'{W_}.ssn_before_due_date': a, f'{W_}.armed_forces': b, f'{W_}.either_ssn_before_due_date': c_, f'{W_}.dependents_ssn_before_due_date': d_, f'{W_}.eip_3_amount': '0'}
+                      for a, b, c_, d_ in itertools.product(('yes', 'no'), ('yes', 'no'), ('yes', 'no'), ('0', '1'))]
     for form_name, full, line in todo:
+        for ov_ in combos.get(form_name, []):
+            for st_ in ('MFJ', 'S'):
+                p = scen.plain_persona(year, st_, 60000.0, key=f'c12combo:{st_}', deps_ctc=1, overrides=ov_)
+                out = drive.run_solver(hx.catalogue(year), drive.config_from({}), sorted({'1040', full}), field_names=[line],
+                                       answer=lambda missing, needed_by, p=p: p.answer(missing), sort_key=drive.plain_name_key)
+                res.evaluations += 1
+                res.count('line_demands_answer_combinations')
+                if isinstance(out.exc, TypeError) and 'expected to produce type' in str(out.exc):
+                    import re as _re
+                    m_ = _re.search(r'Field named (\S+) expected', str(out.exc))
+                    nm = m_.group(1) if m_ else line
+                    res.violation(f'C12|real|{year}|shipped-definition-wrong-type|{realwork.key_line(nm + " ")}',
+                                  f'{year} {st_} with answers {sorted(ov_.items())[:4]} demanding {line}: the shipped definition of {nm} answered with another type than the line declares: {str(out.exc)[:130]}',
+                                  {'engine': 'lines', 'persona': p.describe(), 'line': line, 'answers': ov_, 'shard': spec})
         for fi in range(spec['filers']):
             # the first filer is the same for every line; the others rotate with the line and the seed
             st, kids, wages, nc = FILERS[0] if fi == 0 else FILERS[1 + (h([seed, line, fi], 6) % (len(FILERS) - 1))]
